@@ -29,6 +29,8 @@ import (
 	"runtime/debug"
 	"strconv"
 	"strings"
+	"sync"
+	"syscall"
 	"testing"
 	"time"
 
@@ -75,6 +77,7 @@ var kindTable = map[string]attr{
 	"LocParenPc": {"text", true, false, "ok"},
 	"LocPathPc":  {"text", false, false, "okpath"},
 	"LocHuge":    {"text", false, false, "huge"},
+	"LocOddPc":   {"text", false, false, "huge"},
 	"LocBad":     {"text", false, false, "bad"},
 }
 
@@ -343,23 +346,25 @@ var (
 		"/home/user/go/src/app/main.go", "/Users/alice smith/My Secret Project/x.go",
 		"C:/Users/Bob/secret-token=abc123/svc.go", "/tmp/pc=/file.go", "/srv/created by me/sentinel 1234/x.go",
 		"/tmp/goroutine 7 [running]:/a.go", "/usr/lib/go/src/runtime/panic.go", "_cgo_gotypes.go", "/a/b.c/d-e_f/g.go",
+		"/home/josé/проект/世界.go", "/tmp/\xff\xfe bad utf8/\xc3.go", "/t/\x00nul/\x7f.go", "C:\\Users\\Ünï\\x.go", "",
 	}
 	pathsParen = []string{"/Users/a (b)/x.go", "/home/u/proj(1)/main.go", "/tmp/x(y)/.(z)/y.go"}
 	pathsPC    = []string{"/home/u/my pc=12/main.go", "/data/x pc=0x4a5b6c/y.go", "/a pc=/b.go", "/w/ pc=0x1 pc=0x2/z.go"}
 	argsPool   = []string{"0x1, 0x2", "{0xc000012345, 0x10}, 0x0?", "...", "0xc00001c0a8?, {0x4b2f60?, 0xc000010000?}",
-		"(nested (parens)), 0x1", "", "0x0?", "{{}, {0x1, 0x2}}, 0xffffffffffffffff"}
+		"(nested (parens)), 0x1", "", "0x0?", "{{}, {0x1, 0x2}}, 0xffffffffffffffff", "\"世界\", 0x2", "\xff\xfe", "…"}
 	symsPlain = []string{"main.main", "main.f", "github.com/user/secret-project/internal/pkg.Handler", "panic",
 		"runtime.gopanic", "runtime.panicmem", "main.(*T).m", "pkg.(*Server[...]).Serve.func1", "a.b/c.T.m-fm",
 		"runtime.sigpanic2", "xruntime.sigpanic", "runtime.sigpanic.func1", "runtime.(*sigpanic).x",
-		"net/http.(*conn).serve", "main.sentinel", "main.created by", "runtime.goexit", "main.G[...]"}
+		"net/http.(*conn).serve", "main.sentinel", "main.created by", "runtime.goexit", "main.G[...]",
+		"main.世界の関数", "пакет.(*Тип).Метод", "main.\xff\xfe", "é", "x"}
 	textAny = []string{"panic: runtime error: invalid memory address or nil pointer dereference",
 		"[signal SIGSEGV: segmentation violation code=0x1 addr=0x0 pc=0x48f2a5]", "... 55 frames elided ...",
 		"exit status 2", "runtime stack:", "fatal error: all goroutines are asleep - deadlock!", "rax    0x0",
 		"panic: user said: sentinel 1234, goroutine 5 [running]: created by x pc=0x10 !", " goroutine 1 [running]:",
-		"\tgoroutine running", "rip    0x48f2a5", "-----", " ", "\t", "panic: oops [recovered]", ".(", "x.(", "runtime.(", "x", ".", ")", "\""}
+		"\tgoroutine running", "rip    0x48f2a5", "-----", " ", "\t", "panic: oops [recovered]", "panic: 世界 \xff\xfe é", "\r", "\x00", ".(", "x.(", "runtime.(", "x", ".", ")", "\""}
 	textBlock = []string{"panic: runtime error: index out of range", "...additional frames elided...", "exit status 2",
 		"runtime stack:", "rax    0x0", " goroutine 1 [running]:", " sentinel 12", " created by x", " ", "\t",
-		"\t/home/user/inlined.go:85", "\t/tmp/secret token=abc/y.go:85 +0x1d", "\t/x/pc=1/y.go:3", ".(", "x.(", "runtime.(", "x", ".", ")"}
+		"\t/home/user/inlined.go:85", "\t/tmp/secret token=abc/y.go:85 +0x1d", "\t/x/pc=1/y.go:3", "\t/home/josé/世界.go:1", "\xff\xfe", "\r", ".(", "x.(", "runtime.(", "x", ".", ")"}
 	hdrRun    = []string{"goroutine 1 [running]:", "goroutine 18 gp=0xc000102700 m=3 mp=0xc000080008 [running]:", "goroutine 4242 [running]:"}
 	hdrOtherP = []string{"goroutine 3 gp=0xc000007880 m=nil [GC worker (idle), 2 minutes]:", "goroutine 18 [select (no cases)]:",
 		"goroutine 7 gp=0xc000102380 m=nil [GC assist wait (idle)]:", "goroutine 2 gp=0xc000006c40 m=nil [force gc (idle)]:"}
@@ -385,6 +390,11 @@ var markerPCs []uint64
 // markerOverride, when set, replaces the marker functions of concretize (the
 // long-identifier reports).
 var markerOverride []uint64
+
+func markerPCsOnce() []uint64 {
+	initMarkers()
+	return markerPCs
+}
 
 func initMarkers() {
 	if markerPCs != nil {
@@ -422,6 +432,18 @@ func concretize(kinds []string, variant int, rng *rand.Rand, vt *valueTable, pla
 		if k == "SentOk2" {
 			delta, firstSent = delta2, k
 			break
+		}
+	}
+	if variant != 0 && firstSent != "" {
+		// the same executable mapped elsewhere: at the same address (the usual
+		// case), or so that the relocation wraps around 2^64
+		switch rng.Intn(4) {
+		case 0:
+			delta = 0
+		case 1:
+			delta = 1 << 63
+		case 2:
+			delta = ^uint64(0) - child // the parent's sentinel is 0xffffffffffffffff
 		}
 	}
 	pick := func(pool []string) string {
@@ -532,6 +554,16 @@ func concretize(kinds []string, variant int, rng *rand.Rand, vt *valueTable, pla
 			nhuge++
 			id, _ = vt.add(j)
 			ln = loc(pick(pathsPlain), j+delta)
+		case "LocOddPc":
+			// a real PC written in a notation strconv accepts with base 0 but the
+			// runtime never prints
+			real := markerPCs[npc%len(markerPCs)]
+			npc++
+			id, _ = vt.add(real)
+			v := real + delta
+			forms := []string{fmt.Sprintf("%d", v), fmt.Sprintf("0X%X", v), fmt.Sprintf("0o%o", v), fmt.Sprintf("0b%b", v),
+				fmt.Sprintf("0x_%x", v), fmt.Sprintf("0%o", v)}
+			ln = fmt.Sprintf("\t%s:%d +0x1d fp=0xc000 sp=0xc000 pc=%s", pick(pathsPlain), 9, pick(forms))
 		case "LocBad":
 			ln = fmt.Sprintf("\t%s:%d +0x1d fp=0xc000 sp=0xc000 %s", pick(pathsPlain), 7, pick(locBad))
 		}
@@ -864,7 +896,19 @@ func index(s []int, i int) int { return s[i] }
 func nilMap() { sinkMap["x"] = 1 }
 
 var scenarios = []string{"panic", "trap", "inline-trap", "inline-panic", "method-generic-closure", "rec8", "rec40",
-	"rec150", "rec400", "longnames", "goroutine-panic", "goroutine-trap", "divzero", "index", "nilmap", "lockthread"}
+	"rec150", "rec400", "longnames", "goroutine-panic", "goroutine-trap", "divzero", "index", "nilmap", "multiline-message",
+	"sigquit", "fatal-unlock", "stack-overflow", "lockthread"}
+
+// Scenarios that cannot be run once with recover first (fatal errors): no
+// differential oracle, the abstract validation by TLC decides alone.
+var noOracle = map[string]bool{"sigquit": true, "fatal-unlock": true, "stack-overflow": true}
+
+//go:noinline
+func overflow(n int) int {
+	var pad [128]byte
+	pad[n%128] = byte(n)
+	return overflow(n+1) + int(pad[(n+1)%128])
+}
 
 func dispatch(s string) {
 	switch {
@@ -890,6 +934,20 @@ func dispatch(s string) {
 		sinkInt = index(make([]int, 2), 5+sinkInt*0)
 	case s == "nilmap":
 		nilMap()
+	case s == "multiline-message": // message text with blank lines and lines that look like structure
+		panic(fmt.Errorf("first line\n\nsentinel 1234\ncreated by nobody\n\t/x/y.go:1 +0x1 fp=0x1 sp=0x2 pc=0x1234\n(paren line\nruntime.sigpanic()\n世界 \xff"))
+	case s == "sigquit": // killed by a signal while asleep: usually no running goroutine at all
+		go func() {
+			time.Sleep(100 * time.Millisecond)
+			syscall.Kill(syscall.Getpid(), syscall.SIGQUIT)
+		}()
+		time.Sleep(20 * time.Second)
+	case s == "fatal-unlock": // a fatal error, not a panic
+		var mu sync.Mutex
+		mu.Unlock()
+	case s == "stack-overflow":
+		debug.SetMaxStack(1 << 20)
+		sinkInt = overflow(0)
 	case s == "lockthread":
 		runtime.LockOSThread()
 		leafPanic()
@@ -921,7 +979,11 @@ func runScenario(s string, rec bool) {
 func crashMain(s string) {
 	debug.SetTraceback("system")
 	crashmonitor.VWriteSentinel(os.Stderr)
-	for i := 0; i < 2; i++ {
+	first := 0
+	if noOracle[s] {
+		first = 1 // straight to the crash
+	}
+	for i := first; i < 2; i++ {
 		if strings.HasPrefix(s, "goroutine-") {
 			done := make(chan bool)
 			go func() {
@@ -1059,7 +1121,7 @@ func mutateLines(text string, rng *rand.Rand) string {
 	n := 1 + rng.Intn(3)
 	for ; n > 0 && len(lines) > 1; n-- {
 		p := rng.Intn(len(lines))
-		switch rng.Intn(11) {
+		switch rng.Intn(12) {
 		case 10: // unpair the first running goroutine (drop one of its lines) and shift
 			// the lines of the next goroutine whose header has a "(" by one as well
 			h := -1
@@ -1126,6 +1188,10 @@ func mutateLines(text string, rng *rand.Rand) string {
 		case 7: // drop the pc of a location line (as for an inlined call)
 			if k := strings.Index(lines[p], " fp="); k > 0 && strings.HasPrefix(lines[p], "\t") {
 				lines[p] = lines[p][:k]
+			}
+		case 11: // every line ends in CR LF
+			for i := range lines {
+				lines[i] += "\r"
 			}
 		case 8: // remove a blank line (merges goroutines)
 			for q := p; q < len(lines); q++ {
@@ -1231,7 +1297,7 @@ func TestVerifC14Real(t *testing.T) {
 		cmd.Run() // fails by design
 		text := stderr.String()
 		expData, _ := os.ReadFile(expFile)
-		if !strings.Contains(text, "goroutine ") || len(expData) == 0 {
+		if !strings.Contains(text, "goroutine ") || (len(expData) == 0 && !noOracle[s]) {
 			rt.Out(rt.M{"kind": "real", "scenario": s, "infra": "the helper did not crash as planned", "stderr": text})
 			continue
 		}
@@ -1245,7 +1311,7 @@ func TestVerifC14Real(t *testing.T) {
 			}
 		}
 		name, nerr, pan, hung := runName([]byte(text))
-		rec := rt.M{"kind": "real", "scenario": s, "elided": strings.Contains(text, "frames elided..."),
+		rec := rt.M{"kind": "real", "scenario": s, "oracle": !noOracle[s], "running": strings.Contains(text, " [running]:\n"), "elided": strings.Contains(text, "frames elided..."),
 			"locked": strings.Contains(text, "locked to thread]:"), "lines": strings.Count(text, "\n")}
 		switch {
 		case hung:
@@ -1282,6 +1348,9 @@ func TestVerifC14Real(t *testing.T) {
 			if ok && len(gotTail) < len(expTail) && len(got) < 16 && !cut {
 				ok = false
 			}
+			if noOracle[s] {
+				ok = len(got) > 0 // which frames: decided by TLC on the abstracted text
+			}
 			rec["cut"] = cut
 			rec["result"], rec["frames_ok"] = "name", ok
 			rec["got"], rec["want"] = got, exp
@@ -1313,8 +1382,35 @@ func TestVerifC14Real(t *testing.T) {
 			emit("mutated-lines", mutateLines(g, rng), nil)
 		}
 	}
+	// sizes and shapes at the edge: nothing, one line, only structure words
+	for _, tx := range []string{"", "\n", "\n\n", "sentinel", "sentinel ", "sentinel 1", "goroutine ", "goroutine 1 [running]:",
+		fmt.Sprintf("sentinel %x", crashmonitor.VSentinel()), fmt.Sprintf("sentinel %x\ngoroutine 1 [running]:", crashmonitor.VSentinel()),
+		fmt.Sprintf("sentinel %x\ngoroutine 1 [running]:\n", crashmonitor.VSentinel()), fmt.Sprintf("sentinel %x\ngoroutine 1 [running]:\n(", crashmonitor.VSentinel()),
+		"created by ", "(", " pc=", "\xff", "\x00"} {
+		emit("bytes", tx, nil)
+	}
 	for i := 0; i < in.Bytes; i++ {
 		emit("bytes", randomBytes(rng), nil)
+	}
+	// very large inputs (not given to TLC: totality and the length bound only)
+	if len(in.Show) == 0 {
+		hdr := fmt.Sprintf("sentinel %x\npanic: x\n\ngoroutine 1 [running]:\n", crashmonitor.VSentinel())
+		frame := fmt.Sprintf("main.f(0x1)\n\t/x/y.go:1 +0x1 fp=0x1 sp=0x2 pc=0x%x\n", markerPCsOnce()[0])
+		for i, tx := range []string{strings.Repeat("x", 4<<20), strings.Repeat("\n", 1<<20), hdr + strings.Repeat("main.f(0x1)\n\t/x/y.go:1\n", 200000),
+			hdr + strings.Repeat("(", 1<<20), hdr + "main.f(" + strings.Repeat("a", 4<<20) + ")\n\t" + strings.Repeat("/p", 1<<20) + ".go:1 pc=0x1\n",
+			strings.Repeat(hdr, 50000), hdr + strings.Repeat(frame, 100000), hdr + "main.f()\n\t/x.go:1 pc=0x" + strings.Repeat("f", 1<<20)} {
+			name, nerr, pan, hung := runName([]byte(tx))
+			res := "ok"
+			switch {
+			case hung:
+				res = "hang"
+			case pan != "":
+				res = "panic"
+			case nerr == nil && len(name) > maxNameLen:
+				res = "toolong"
+			}
+			rt.Out(rt.M{"kind": "big", "i": i, "bytes": len(tx), "result": res, "panic": pan, "namelen": len(name)})
+		}
 	}
 	rt.Out(rt.M{"kind": "summary", "genuine": len(genuine), "records": id, "hung": hungOnce})
 }
